@@ -2,7 +2,10 @@ package main
 
 import (
 	"fmt"
+	"math/rand"
 	"time"
+
+	hg "github.com/mosaicnetworks/babble/src/hashgraph"
 )
 
 // Histories shared by the chain properties (C01 C02 C04 C05 C09 C10 C18): a
@@ -120,12 +123,45 @@ func runHistory(cs CaseSpec, mk func(nw *Network) []Monitor, after func(nw *Netw
 	opts := optsFromCase(cs)
 	nw.DefaultOpts = opts
 	nw.GenesisNodes(int(cs.I("n", 4)), opts, nil)
+	if p := cs.I("storeerr", 0); p > 0 {
+		// storage faults: SetEvent fails now and then on every node (nothing is written)
+		for _, x := range nw.Nodes {
+			if x.Node != nil && !x.Puppet {
+				x.Core.Hg().Store = &faultyStore{Store: x.Core.Hg().Store, rng: cs.rng(fmt.Sprint("fs", x.Idx)), perMille: int(p), res: res}
+			}
+		}
+	}
 	nw.Mons = mk(nw)
 	sp := specFromCase(cs)
 	nw.RunSchedule(sp)
 	cycles, idle := 0, false
 	if !nw.stopped {
 		cycles, idle = nw.FairCycles(int(cs.I("fair", 60)))
+	}
+	if !nw.stopped && idle && cs.I("quietitx", 0) == 1 {
+		// a membership request arrives while everything is idle: it alone must get
+		// the network moving again
+		b := nw.babblers()
+		var cand *SimNode
+		for _, x := range b {
+			if x.Core.Validators().ByID[x.ID] != nil && x.Core.Validators().Len() > 3 && fullHistory(x) {
+				cand = x
+				break
+			}
+		}
+		if cand != nil {
+			if nw.leaving == nil {
+				nw.leaving = map[int]*ItxRecord{}
+			}
+			nw.leaving[cand.Idx] = nw.RequestLeave(cand)
+			nw.Res.count("quiet_membership_requests", 1)
+			c2, i2 := nw.FairCycles(int(cs.I("fair", 60)))
+			nw.retireLeavers()
+			if c2 > cycles {
+				cycles = c2
+			}
+			idle = i2
+		}
 	}
 	nw.idleAfterFair = idle
 	if !nw.stopped {
@@ -245,6 +281,10 @@ func init() {
 					cs[i].P["cbtx"] = 30
 				}
 				cs[i].P["harshfaults"] = 1
+				if i%4 == 3 {
+					cs[i].P["storeerr"] = 25 // per mille of SetEvent calls fail
+					cs[i].P["badger"] = 0
+				}
 			}
 			return cs
 		},
@@ -263,6 +303,9 @@ func init() {
 			for i := range cs {
 				if i%3 == 2 && cs[i].P["n"] >= 4 && cs[i].S["shape"] != "silent" {
 					cs[i].P["ffresets"] = 1
+				}
+				if i%3 == 1 && cs[i].P["n"] >= 4 {
+					cs[i].P["quietitx"] = 1
 				}
 				if cs[i].S["shape"] == "silent" {
 					cs[i].P["keepsilent"] = int64(i % 2)
@@ -347,3 +390,24 @@ func init() {
 }
 
 var _ = fmt.Sprint
+
+// faultyStore makes SetEvent fail now and then without writing anything (a
+// full disk, an I/O error): insertions fail midway through a sync, also the
+// insertion of the node's own new event.
+type faultyStore struct {
+	hg.Store
+	rng      *rand.Rand
+	perMille int
+	res      *CaseResult
+}
+
+func (f *faultyStore) SetEvent(e *hg.Event) error {
+	// only the first write of an event fails (the insertion fails as a whole,
+	// nothing was stored): failing a later re-write of an already inserted
+	// event would model a half-completed insertion, which is outside C05
+	if _, err := f.Store.GetEvent(e.Hex()); err != nil && f.rng.Intn(1000) < f.perMille {
+		f.res.count("injected_store_errors", 1)
+		return fmt.Errorf("injected storage fault")
+	}
+	return f.Store.SetEvent(e)
+}
